@@ -66,6 +66,11 @@ CHECKS = {
              "survive, the simplified network solved by the library equals the exact solution of the original per surviving node and branch, "
              "passive_network's port impedance equals the exact deactivated port impedance, inputs are fingerprinted before/after.",
         design='5/C16', technique='runtime oracle vs exact reference of the original + purity sentinels'),
+    'C03': dict(
+        text="Pair monitor: an original and a transformed description (hostile bijective renaming of nodes and elements, list permutation, reversed "
+             "elements with negated source values, new reference node) are both executed by the real code and related: network solutions and port "
+             "impedances, ComplexSolution phasors, state-space transfer values addressed by source name, transient waveforms.",
+        design='5/C03', technique='metamorphic pair monitor over original/transformed executions'),
 }
 
 NOT_YET = "check not built yet in this round (work in progress; see DESIGN.md section 5)"
